@@ -42,15 +42,11 @@ pub fn atoms_str(atoms: &[Atom]) -> String {
 }
 
 /// `ParsePatError`'s fields are private: take them from its `Debug` text
-/// `ParsePatError { kind: StackError, position: 2 }` and cross-check the position with `Display`
-/// (`Syntax Error @2: stack unbalanced.`).
+/// `ParsePatError { kind: StackError, position: 2 }` (the `Display` wording is nobody's contract)
 fn err_str(e: &pattern::ParsePatError) -> String {
 	let dbg = format!("{:?}", e);
 	let kind = dbg.split("kind: ").nth(1).and_then(|s| s.split(',').next()).unwrap_or("?").trim().to_string();
 	let pos = dbg.split("position: ").nth(1).map(|s| s.trim_end_matches(|c: char| !c.is_ascii_digit()).to_string()).unwrap_or_else(|| "?".to_string());
-	let disp = format!("{}", e);
-	let dpos = disp.split('@').nth(1).and_then(|s| s.split(':').next()).unwrap_or("?").to_string();
-	if dpos != pos { return format!("err {} {} display-position-differs({})", kind, pos, dpos); }
 	format!("err {} {}", kind, pos)
 }
 
